@@ -119,6 +119,15 @@ pub enum Type<P: TyPosition> {
 pub type OutType = Type<OutputOnly>;
 pub enum SuccessType { Write, OutType(OutType), Unit }
 pub enum ReturnType { Infallible(SuccessType), Fallible(SuccessType, Option<OutType>), Nullable(SuccessType) }
+impl ReturnType {
+    pub open spec fn success_spec(&self) -> SuccessType { match *self { ReturnType::Infallible(s) => s, ReturnType::Fallible(s, _) => s, ReturnType::Nullable(s) => s } }
+    // hir::ReturnType::success_type: contract proved on the real function in unit return_type_helpers
+    #[verifier::external_body] pub fn success_type(&self) -> (r: &SuccessType) ensures *r == self.success_spec() { unimplemented!() }
+}
+impl SuccessType {
+    // hir::SuccessType::is_write: contract proved on the real function in unit return_type_helpers
+    #[verifier::external_body] pub fn is_write(&self) -> (r: bool) ensures r == (*self is Write) { unimplemented!() }
+}
 #[verifier::external_body] pub struct LifetimeEnv { x: u8 }
 
 pub trait LifetimeLowerer {
